@@ -8,7 +8,7 @@ import (
 	"github.com/tdakkota/docker-logql/internal/logql"
 )
 
-var verifNames = []string{"a", "ab", "b", "c"}
+var verifNamesC10 = []string{"a", "ab", "b", "c"}
 
 func verifLabelSet(names []string, vals []string) LabelSet {
 	set := newLabelSet()
@@ -41,8 +41,8 @@ func VerifHarness_C10_KeyOrder_MapOrder_3() { verifC10KeyOrder(3, 2) }
 // C10-O2: different label sets get different keys (hash assumed injective:
 // the hashed byte stream must be uniquely decodable).
 func verifC10KeySeparation(maxVal int) {
-	na := verifNames[vsymChoice("nameA", len(verifNames))]
-	nb := verifNames[vsymChoice("nameB", len(verifNames))]
+	na := verifNamesC10[vsymChoice("nameA", len(verifNamesC10))]
+	nb := verifNamesC10[vsymChoice("nameB", len(verifNamesC10))]
 	va := vsymString("valA", vsymChoice("lenA", maxVal+1))
 	vb := vsymString("valB", vsymChoice("lenB", maxVal+1))
 	ka := newAggregatedLabels(verifLabelSet([]string{na}, []string{va}), nil, nil).Key()
